@@ -290,9 +290,10 @@ func c13(cx *Ctx, r *ev.Report) {
 	r.Samples = []interface{}{map[string]interface{}{"returns": res.accepted, "events": res.events}}
 	r.Rules = append(r.Rules, ruleC, ruleW, ruleR, ruleL)
 	r.Assumptions = append(r.Assumptions, commonAssumptions...)
-	r.Assumptions = append(r.Assumptions, "context.WithCancel, Context.Done/Err and sync/atomic behave as documented (Go memory model: an atomic store observed by an atomic load orders the writes before it)")
-	r.Trusted = []string{"golang.org/x/tools/go/ssa v0.29.0", "verif/internal/checks/c08.go, c13.go", "context, sync/atomic (library semantics)"}
-	r.Explanation = "Decided on the value summary of Run's loop (see C08) and, for the hand-off, by interpreting the function the watcher goroutine runs - wherever it is started (a go statement in Run or in a helper, or context.AfterFunc) - on a trace of its own: every iteration reads a fresh observation of the cancellation state before its Step and the decision not to Step depends on nothing else, a positive test returns the context's error with no further Step, so Run returns within one Step (finite: no unbounded loop below Step, C12) of observing the cancellation; the goroutine captures nothing of the CPU, receives once from Done() of the context Run derives (or is registered with AfterFunc), writes the error and only then publishes with one atomic store (a flag, or a pointer to the already written error); Run loads the published cell only atomically, reads a plainly written cell only on paths that observed the publication, never writes a captured cell after the go statement (no data race under the Go memory model); every return is covered by a deferred call of the derived context's CancelFunc (no goroutine left behind); Run changes the CPU only through whole Steps (state reachable by a whole number of Steps). A watcher outside this vocabulary (channels, mutexes, WaitGroups) is reported as undecided. NOT decided: the real-time delay between cancellation and return (scheduler latency before the watcher runs) and races inside user callbacks."
+	r.Assumptions = append(r.Assumptions, "context.WithCancel, Context.Done/Err and sync/atomic behave as documented (Go memory model: an atomic store observed by an atomic load orders the writes before it)",
+		"channels and sync.WaitGroup behave as documented: close wakes every receiver and a closed channel is always ready, a send into a buffer with room does not block, close/send happen before the receive that observes them, Wait returns once every Add is matched by a Done; a context whose Done() is nil is never done")
+	r.Trusted = []string{"golang.org/x/tools/go/ssa v0.29.0", "verif/internal/checks/c08.go, c13.go, run_sem.go", "context, sync, sync/atomic, channels (library and language semantics)"}
+	r.Explanation = "Decided on the value summary of Run's loop (see C08) and, for the hand-off, by interpreting the function the watcher goroutine runs - wherever it is started (a go statement in Run or in a helper, or context.AfterFunc) - on a trace of its own: every iteration reads a fresh observation of the cancellation state before its Step and the decision not to Step depends on nothing else, a positive test returns the context's error with no further Step, so Run returns within one Step (finite: no unbounded loop below Step, C12) of observing the cancellation; the goroutine captures nothing of the CPU, blocks once - on Done() of a context Run derives from the caller's (or it is registered with AfterFunc), or in a select over the caller's Done() and quit channels the code made -, writes the error and only then publishes, on exactly the paths that saw the context done: with one atomic store (a flag, or a pointer to the already written error), by closing a channel Run polls, or by posting the error on a buffered channel Run polls; Run loads the published cell only atomically (or polls the channel), reads a plainly written cell only on paths that observed the publication, never writes a shared cell after the go statement (no data race under the Go memory model); every return on which the goroutine was started is covered by what ends it - the deferred CancelFunc of the derived context or the close of a quit channel - and a wait of Run for the goroutine's exit (channel close, WaitGroup) comes after that and is matched by a signal on all the goroutine's paths (no goroutine left behind, no hang); Run changes the CPU only through whole Steps (state reachable by a whole number of Steps). A watcher outside this vocabulary (mutexes, pools, unbuffered hand-offs) is reported as undecided. NOT decided: the real-time delay between cancellation and return (scheduler latency before the watcher runs) and races inside user callbacks."
 }
 
 // instrBefore: a executes before b on every path reaching b (same block
